@@ -84,6 +84,10 @@ func (fit *fiterator) Release() {
 
 func (fit *fiterator) SetBackward(bkwd bool) {
 	fit.it.SetBackward(bkwd)
+	// the buffered event must be read again through the underlying iterator, otherwise
+	// CurrentPos() of a mixer below (which re-selects after the switch) does not refer to it
+	fit.le.Release()
+	fit.valid = false
 }
 
 func (fit *fiterator) CurrentPos() records.IteratorPos {
